@@ -258,6 +258,198 @@ Proof.
   - cbn. repeat split; auto.
 Qed.
 
+(* ---------- keeps trying, any spawner (alternating between complete and incomplete too) ---------- *)
+
+(* the second half of an iteration and everything after it *)
+Definition tail {S} (P : spawner S) (fuel : nat) (st1 : lstate S) (evs : list (Z * sysev)) (tc : Z)
+  (ties : list bool) : list entry :=
+  match wait_step (has_ticket st1) (last st1) (now st1) evs tc ties with
+  | WClosed t => [Closed t]
+  | WEvent t e evs' ties' =>
+      Handled t e :: loop P fuel (mklstate (has_ticket st1) (last st1) t (handle P (sp st1) e)) evs' tc ties'
+  | WIdle t ties' => IdleAt t :: loop P fuel (mklstate (has_ticket st1) (last st1) t (sp st1)) evs tc ties'
+  end.
+
+Lemma loop_S : forall S (P : spawner S) fuel st evs tc ties,
+  loop P (Datatypes.S fuel) st evs tc ties =
+  if snd (attempt_step P st) then fst (fst (attempt_step P st))
+  else fst (fst (attempt_step P st)) ++ tail P fuel (snd (fst (attempt_step P st))) evs tc ties.
+Proof.
+  intros. cbn [loop]. destruct (snd (attempt_step P st)); [reflexivity |].
+  unfold tail. destruct (wait_step _ _ _ evs tc ties); reflexivity.
+Qed.
+
+(* top of the loop: the loop's variables against the ghost values of [keeps] *)
+Definition InvK {S} (st : lstate S) (lastf : option Z) : Prop :=
+  match lastf with
+  | None => has_ticket st = true
+  | Some l => last st = l /\ l <= now st /\ (has_ticket st = true -> l + W <= now st)
+  end.
+(* at the wait: has_ticket is exactly "an attempt is due" *)
+Definition InvW {S} (st : lstate S) (lastf : option Z) : Prop :=
+  has_ticket st = due lastf (now st)
+  /\ match lastf with None => True | Some l => last st = l /\ l <= now st end.
+
+Lemma InvW_next : forall S (st : lstate S) lastf t (s' : S),
+  InvW st lastf -> now st <= t -> InvK (mklstate (has_ticket st) (last st) t s') lastf.
+Proof.
+  intros S st lastf t s' [Hh Hl] Ht. destruct lastf as [l |]; cbn in *.
+  - destruct Hl as [Hl Hle]. repeat split; auto; try lia.
+    intros H. rewrite H in Hh. symmetry in Hh. apply Z.leb_le in Hh. lia.
+  - exact Hh.
+Qed.
+
+Lemma due_false : forall lastf cur, due lastf cur = false -> exists l, lastf = Some l /\ cur < l + W.
+Proof.
+  intros [l |] cur H; cbn in H; [| discriminate]. exists l. split; auto. apply Z.leb_gt in H. lia.
+Qed.
+
+Lemma wait_keeps : forall S (P : spawner S) fuel,
+  (forall st evs tc ties lastf, InvK st lastf -> keeps P (sp st) lastf (now st) (loop P fuel st evs tc ties)) ->
+  forall (st : lstate S) evs tc ties lastf,
+  InvW st lastf -> (sp_complete P (sp st) = false -> due lastf (now st) = false) ->
+  keeps P (sp st) lastf (now st) (tail P fuel st evs tc ties).
+Proof.
+  intros S P fuel IH st evs tc ties lastf HW Hc.
+  pose proof (wait_ge (has_ticket st) (last st) (now st) evs tc ties) as Hge.
+  assert (Hbd : forall l, lastf = Some l -> now st < l + W ->
+            has_ticket st = false /\ last st = l
+            /\ wait_time (wait_step false l (now st) evs tc ties) <= l + W
+            /\ (forall t ties', wait_step false l (now st) evs tc ties = WIdle t ties' -> t = l + W)).
+  { intros l -> Hlt. destruct HW as [Hh [Hl Hle]]. cbn in Hh. split.
+    { rewrite Hh. apply Z.leb_gt. lia. }
+    split; [exact Hl |]. apply wait_deadline; lia. }
+  assert (Hby : forall t, wait_time (wait_step (has_ticket st) (last st) (now st) evs tc ties) = t ->
+                          by_deadline lastf (now st) t).
+  { intros t Ht. unfold by_deadline. destruct lastf as [l |]; auto. intros Hlt.
+    destruct (Hbd l eq_refl Hlt) as (Hf & Hl & Hle & _). rewrite Hf, Hl in Ht. lia. }
+  unfold tail.
+  destruct (wait_step (has_ticket st) (last st) (now st) evs tc ties) as [t | t e evs' ties' | t ties'] eqn:Hws;
+    cbn [wait_time] in Hge; cbn [keeps].
+  - repeat split; auto.
+  - split; [exact Hc |]. split; [exact Hge |]. split; [apply Hby; reflexivity |].
+    match goal with |- keeps _ _ _ _ (loop _ _ ?s _ _ _) => apply (IH s) end.
+    apply InvW_next; auto.
+  - assert (Hl : exists l, lastf = Some l /\ now st < l + W).
+    { destruct (has_ticket st) eqn:Hht.
+      - exfalso. eapply wait_ticket_no_idle; exact Hws.
+      - apply due_false. destruct HW as [Hh _]. rewrite <- Hh. exact Hht. }
+    destruct Hl as (l & -> & Hlt).
+    destruct (Hbd l eq_refl Hlt) as (Hf & Hl & _ & Hidle). rewrite Hf, Hl in Hws.
+    specialize (Hidle _ _ Hws). split; [split; assumption |].
+    match goal with |- keeps _ _ _ _ (loop _ _ ?s _ _ _) => apply (IH s) end.
+    apply InvW_next; auto.
+Qed.
+
+Lemma loop_keeps : forall S (P : spawner S) fuel st evs tc ties lastf,
+  InvK st lastf -> keeps P (sp st) lastf (now st) (loop P fuel st evs tc ties).
+Proof.
+  pose proof W_pos as HWp.
+  intros S P fuel; induction fuel as [| fuel IH]; intros st evs tc ties lastf HI.
+  - reflexivity.
+  - rewrite loop_S.
+    assert (Hdue : has_ticket st || (W <=? now st - last st) = due lastf (now st)).
+    { destruct lastf as [l |]; cbn in HI |- *.
+      - destruct HI as (Hl & Hle & Hk). subst l. destruct (has_ticket st); cbn [orb].
+        + symmetry. apply Z.leb_le. auto.
+        + destruct (Z.leb_spec W (now st - last st)), (Z.leb_spec (last st + W) (now st)); auto; lia.
+      - rewrite HI. reflexivity. }
+    unfold attempt_step. rewrite Hdue.
+    destruct (due lastf (now st) && negb (sp_complete P (sp st))) eqn:Hatt.
+    + apply andb_true_iff in Hatt. destruct Hatt as [Hd Hc]. apply negb_true_iff in Hc.
+      destruct (sp_try P (sp st)) as [[s' d] i] eqn:Htry. cbn [fst snd].
+      assert (Hf : now st <= now st + Z.max 0 d) by lia.
+      destruct i as [i |]; cbn [app keeps]; rewrite Htry; cbn [fst snd].
+      * repeat (split; [solve [auto] |]).
+        apply (wait_keeps S P fuel IH (mklstate false (now st + Z.max 0 d) (now st + Z.max 0 d) s')).
+        -- split; cbn; [| lia]. symmetry. apply Z.leb_gt. lia.
+        -- intros _. cbn. apply Z.leb_gt. lia.
+      * repeat (split; [solve [auto] |]). reflexivity.
+    + cbn [fst snd app].
+      apply (wait_keeps S P fuel IH (mklstate (due lastf (now st)) (last st) (now st) (sp st))).
+      * split; cbn; [reflexivity |]. destruct lastf as [l |]; auto. cbn in HI. tauto.
+      * cbn. intros Hc. rewrite Hc in Hatt. cbn [negb] in Hatt. rewrite andb_true_r in Hatt. exact Hatt.
+Qed.
+
+Theorem task_keeps : forall S (P : spawner S) fuel t0 s evs tc ties,
+  keeps P s None t0 (task P fuel t0 s evs tc ties).
+Proof. intros. unfold task. apply (loop_keeps S P fuel (init t0 s)). reflexivity. Qed.
+
+(* [keeps] holds again, for the ghost values after the prefix, at every point of the log *)
+Lemma keeps_suffix : forall S (P : spawner S) pre s lastf cur rest s' l' c',
+  rest <> [] -> keeps P s lastf cur (pre ++ rest) -> replay P s lastf cur pre = (s', l', c') ->
+  keeps P s' l' c' rest.
+Proof.
+  intros S P pre; induction pre as [| e pre IH]; intros s lastf cur rest s' l' c' Hne Hk Hr.
+  - cbn in Hr. inversion Hr; subst. exact Hk.
+  - assert (Hnil : pre ++ rest <> []) by (intros H; apply app_eq_nil in H; tauto).
+    destruct e as [t f i | t e | t | t |]; cbn [app keeps replay] in Hk, Hr.
+    + destruct Hk as (_ & _ & _ & _ & _ & Hk). destruct i; [eapply IH; eauto | contradiction].
+    + destruct Hk as (_ & _ & _ & Hk). eapply IH; eauto.
+    + destruct Hk as (_ & Hk). eapply IH; eauto.
+    + destruct Hk as (_ & _ & _ & Hk). contradiction.
+    + contradiction.
+Qed.
+
+(* what comes next at any point of a run at which the spawner is incomplete *)
+Theorem task_keeps_next : forall S (P : spawner S) fuel t0 s evs tc ties pre x rest s' lastf cur,
+  task P fuel t0 s evs tc ties = pre ++ x :: rest ->
+  replay P s None t0 pre = (s', lastf, cur) -> sp_complete P s' = false ->
+  match x with
+  | Try t _ _ => t = cur /\ due lastf cur = true
+  | Handled t _ | Closed t => exists l, lastf = Some l /\ cur < l + W /\ cur <= t <= l + W
+  | IdleAt t => exists l, lastf = Some l /\ cur < l + W /\ t = l + W
+  | OutOfFuel => rest = []
+  end.
+Proof.
+  intros S P fuel t0 s evs tc ties pre x rest s' lastf cur Hlog Hr Hc.
+  pose proof (task_keeps S P fuel t0 s evs tc ties) as Hk. rewrite Hlog in Hk.
+  apply (keeps_suffix S P pre s None t0 (x :: rest) s' lastf cur ltac:(discriminate)) in Hk; [| exact Hr].
+  destruct x as [t f i | t e | t | t |]; cbn [keeps] in Hk.
+  - tauto.
+  - destruct Hk as (Hnd & Hle & Hby & _). destruct (due_false _ _ (Hnd Hc)) as (l & -> & Hlt).
+    exists l. cbn in Hby. repeat split; auto.
+  - destruct Hk as (Hl & _). destruct lastf as [l |]; [| contradiction]. exists l. tauto.
+  - destruct Hk as (Hnd & Hle & Hby & _). destruct (due_false _ _ (Hnd Hc)) as (l & -> & Hlt).
+    exists l. cbn in Hby. repeat split; auto.
+  - exact Hk.
+Qed.
+
+(* the instant of the next attempt: if the spawner is incomplete from some point of the run on
+   until the next attempt, that attempt starts exactly at the later of that point and the
+   deadline (previous return + W); whatever the loop does in between is not later *)
+Definition not_after (t : Z) (e : entry) : Prop :=
+  match entry_time e with Some u => u <= t | None => True end.
+
+Lemma keeps_waiting_try : forall S (P : spawner S) mid s lastf cur t f i post,
+  keeps P s lastf cur (mid ++ Try t f i :: post) -> waiting P s mid ->
+  t = deadline lastf cur /\ Forall (not_after t) mid.
+Proof.
+  intros S P mid; induction mid as [| e mid IH]; intros s lastf cur t f i post Hk Hw.
+  - cbn in Hk. destruct Hk as (_ & Hd & -> & _). split; [| constructor].
+    destruct lastf as [l |]; cbn in *; auto. apply Z.leb_le in Hd. lia.
+  - destruct Hw as [Hc Hw].
+    destruct e as [t1 f1 i1 | u e | u | u |]; try contradiction; cbn [app keeps] in Hk.
+    + destruct Hk as (Hnd & Hle & Hby & Hk). destruct (due_false _ _ (Hnd Hc)) as (l & -> & Hlt).
+      cbn in Hby. specialize (Hby Hlt).
+      destruct (IH _ _ _ _ _ _ _ Hk Hw) as [Ht Hall]. cbn in Ht |- *.
+      split; [lia |]. constructor; [unfold not_after; cbn; lia | exact Hall].
+    + destruct Hk as (Hl & Hk). destruct lastf as [l |]; [| contradiction]. destruct Hl as [Hlt ->].
+      destruct (IH _ _ _ _ _ _ _ Hk Hw) as [Ht Hall]. cbn in Ht |- *.
+      split; [lia |]. constructor; [unfold not_after; cbn; lia | exact Hall].
+Qed.
+
+Theorem task_next_attempt : forall S (P : spawner S) fuel t0 s evs tc ties pre mid t f i post s' lastf cur,
+  task P fuel t0 s evs tc ties = pre ++ mid ++ Try t f i :: post ->
+  replay P s None t0 pre = (s', lastf, cur) -> waiting P s' mid ->
+  t = deadline lastf cur /\ Forall (not_after t) mid.
+Proof.
+  intros S P fuel t0 s evs tc ties pre mid t f i post s' lastf cur Hlog Hr Hw.
+  pose proof (task_keeps S P fuel t0 s evs tc ties) as Hk. rewrite Hlog in Hk.
+  apply (keeps_suffix S P pre s None t0 _ s' lastf cur) in Hk; [| destruct mid; discriminate | exact Hr].
+  eapply keeps_waiting_try; eauto.
+Qed.
+
 (* the general local facts behind it, for every spawner: at the top of the loop an incomplete
    spawner is tried at once when a wait period has passed since the last attempt returned (or a
    ticket is held), and a wait without ticket ends at the deadline at the latest *)
